@@ -648,24 +648,24 @@ PROPS["C17"] = {
 # ------------------------------------------------------------------------------------------------ C18
 PROPS["C18"] = {
     "explanation": "Fault enumeration: every raw memory request (mmap of the default pool by link-time interposition, the raw callback of memory pools) is an explorer choice succeed/fail, so "
-                   "deviation bound b enumerates every pattern of at most b refused requests in each history (histories have 5-13 raw requests; the thorough bound covers all subsets); "
+                   "deviation bound b enumerates every pattern of at most b refused requests in each history (histories have 5-13 raw requests; quick: b = 4-7, thorough: b = 6-10, which is every subset for the default-pool, fixed-pool and C++-allocator histories - their execution counts no longer grow with b - and every pattern of up to 7-9 refusals for the pool histories); "
                    "every execution is a fresh process. Oracle: the entry point reports failure only if a request was refused, live blocks stay intact, allocation works again afterwards, "
                    "pool blocks lie inside the pool's own raw regions, pool_identify is right, a fixed pool calls the raw allocator once, reset/destroy return every region exactly once "
                    "and never a region of another pool; extreme sizes/alignments/overflowing calloc are refused; C++ allocators throw bad_alloc.",
     "rule": "one execution per pattern of refused raw requests (<= bound) per history; distinct = distinct (raw calls, refused, failures) outcomes",
     "legs": [
-        leg("default-pool", "c18_faults", (4, 7), {"kind": "default"}, flags=(), what="default pool history: slabs, fitting, large, aligned, calloc, huge, posix_memalign, realloc"),
-        leg("memory-pool", "c18_faults", (3, 5), {"kind": "pool"}, flags=(), what="memory pool with growing raw memory, then reset and destroy"),
+        leg("default-pool", "c18_faults", (7, 10), {"kind": "default"}, flags=(), what="default pool history: slabs, fitting, large, aligned, calloc, huge, posix_memalign, realloc"),
+        leg("memory-pool", "c18_faults", (5, 7), {"kind": "pool"}, flags=(), what="memory pool with growing raw memory, then reset and destroy"),
         leg("fixed-pool", "c18_faults", (2, 2), {"kind": "fixed"}, flags=(), what="fixed pool: buffer handed out once"),
-        leg("pool-orphan", "c18_faults", (3, 5), {"kind": "poolorphan"}, flags=(), what="pool whose slabs were orphaned by a finished thread and emptied by another thread; then every pattern of refused raw requests during a history (hard cache cleanup of orphaned blocks)"),
-        leg("pool-orphan-live", "c18_faults", (3, 5), {"kind": "poolorphan", "keep": 5}, flags=(), what="same, five blocks of the finished thread stay live and must stay intact"),
-        leg("pool-reset-tls", "c18_faults", (3, 5), {"kind": "poolreset_tls"}, flags=(), what="two threads used the pool and ended, then pool_reset; every pattern of refused raw requests during the history that follows; then a new thread and the main thread allocate again: no block may share memory with anything the allocator still uses (contents intact, no overlap, inside the raw regions)"),
-        leg("pool-reset-tls-live", "c18_faults", (3, 5), {"kind": "poolreset_tls", "threads": 1, "free": 0}, flags=(), what="same with one finished thread whose block was still live at the reset (the reset discards it)"),
-        leg("two-pools", "c18_faults", (4, 6), {"kind": "twopools"}, flags=(), what="two pools with live blocks; destroying one must not touch the other"),
+        leg("pool-orphan", "c18_faults", (5, 8), {"kind": "poolorphan"}, flags=(), what="pool whose slabs were orphaned by a finished thread and emptied by another thread; then every pattern of refused raw requests during a history (hard cache cleanup of orphaned blocks)"),
+        leg("pool-orphan-live", "c18_faults", (5, 8), {"kind": "poolorphan", "keep": 5}, flags=(), what="same, five blocks of the finished thread stay live and must stay intact"),
+        leg("pool-reset-tls", "c18_faults", (5, 8), {"kind": "poolreset_tls"}, flags=(), what="two threads used the pool and ended, then pool_reset; every pattern of refused raw requests during the history that follows; then a new thread and the main thread allocate again: no block may share memory with anything the allocator still uses (contents intact, no overlap, inside the raw regions)"),
+        leg("pool-reset-tls-live", "c18_faults", (5, 8), {"kind": "poolreset_tls", "threads": 1, "free": 0}, flags=(), what="same with one finished thread whose block was still live at the reset (the reset discards it)"),
+        leg("two-pools", "c18_faults", (6, 9), {"kind": "twopools"}, flags=(), what="two pools with live blocks; destroying one must not touch the other"),
         leg("backref-exhaust", "c18_faults", (1, 1), {"kind": "backref"}, flags=("-exec-timeout", "10", "-horizon", "10000000"), what="8400 live large objects exhaust the back-reference table; from an explorer-chosen raw request on, every request is refused (memory stays exhausted): clean failure, no hang, live blocks intact, recovery", weight=2.0),
         leg("backref-exhaust-pool", "c18_faults", (2, 2), {"kind": "poolbackref"}, flags=("-exec-timeout", "15", "-horizon", "10000000"), what="the objects come from a memory pool whose raw callback always succeeds while the default pool (which holds the back-reference table) is drained and out of memory; 0-2 chunks given back by choice", weight=2.0),
         leg("extreme-args", "c18_faults", (0, 0), {"kind": "extreme"}, flags=(), what="sizes near SIZE_MAX, alignments up to 2^63, overflowing calloc, invalid alignments"),
-        leg("cxx-allocators", "c18_faults", (3, 4), {"kind": "cxx"}, flags=(), what="scalable_allocator::allocate throws std::bad_alloc"),
+        leg("cxx-allocators", "c18_faults", (4, 6), {"kind": "cxx"}, flags=(), what="scalable_allocator::allocate throws std::bad_alloc"),
     ],
 }
 
